@@ -215,11 +215,12 @@ namespace MlModel.Tree
 
 /-! ## children: keys are distinct and read back -/
 
-/-- Python dict invariants that matter here: keys are pairwise distinct, and no key is a `Literal` object
-(those only arise from `set` with a `Literal` key, outside the laws). -/
+/-- Python dict invariants that matter here: keys are pairwise distinct **up to `==`** (an `Index(i)` and the
+int `i` are never both keys of one dict), and no key is a `Literal` object (those only arise from `set` with a
+`Literal` key, outside the laws). -/
 def GoodDicts (h : Heap) : Prop :=
   ∀ (r : Ref) (es : List (DKey × Ref)), h[r]? = some (.dict es) →
-    (es.map (·.1)).Nodup ∧ ∀ e ∈ es, ∀ id v, e.1 ≠ .lit id v
+    (es.map (·.1.norm)).Nodup ∧ ∀ e ∈ es, ∀ id v, e.1 ≠ .lit id v
 
 theorem mem_seqChildren {rs : List Ref} {start : Nat} {k : PKey} {c : Ref} :
     (k, c) ∈ seqChildren rs start ↔ ∃ i : Nat, rs[i]? = some c ∧ k = .idx ((start + i : Nat) : Int) := by
@@ -263,7 +264,7 @@ theorem children_keys_pairwise {h : Heap} (hg : GoodDicts h) {r : Ref} {n : Node
     simp only [Node.children]
     rw [List.pairwise_map]
     rw [List.Nodup, List.pairwise_map] at hnd
-    exact hnd.imp (fun hab e => hab (dkeyToPKey_inj e))
+    exact hnd.imp (fun hab e => hab (by rw [dkeyToPKey_inj e]))
   | list rs => exact seqChildren_keys_pairwise rs 0
   | tuple rs => exact seqChildren_keys_pairwise rs 0
   | leaf v => simp [Node.children]
@@ -271,7 +272,7 @@ theorem children_keys_pairwise {h : Heap} (hg : GoodDicts h) {r : Ref} {n : Node
   | nd _ _ _ => simp [Node.children]
   | buf _ => simp [Node.children]
 
-theorem dictGet_of_mem {es : List (DKey × Ref)} (hnd : (es.map (·.1)).Nodup) {k : DKey} {c : Ref}
+theorem dictGet_of_mem {es : List (DKey × Ref)} (hnd : (es.map (·.1.norm)).Nodup) {k : DKey} {c : Ref}
     (hm : (k, c) ∈ es) : dictGet es k = some c := by
   induction es with
   | nil => cases hm
@@ -280,10 +281,10 @@ theorem dictGet_of_mem {es : List (DKey × Ref)} (hnd : (es.map (·.1)).Nodup) {
     simp only [List.map_cons, List.nodup_cons] at hnd
     rcases List.mem_cons.mp hm with e | e
     · cases e; simp [dictGet]
-    · have : k0 ≠ k := by
-        intro e2; subst e2
-        exact hnd.1 (List.mem_map.mpr ⟨(k0, c), e, rfl⟩)
-      simp [dictGet, this, ih hnd.2 e]
+    · have : ¬ k0.norm = k.norm := by
+        intro e2
+        exact hnd.1 (List.mem_map.mpr ⟨(k, c), e, e2.symm⟩)
+      simp only [dictGet, if_neg this, ih hnd.2 e]
 
 /-- A (key, child) pair listed for iteration reads back that child, and the key is a plain one. -/
 theorem children_slotGet {h : Heap} (hg : GoodDicts h) {r : Ref} {n : Node} (hn : h[r]? = some n)
@@ -295,11 +296,12 @@ theorem children_slotGet {h : Heap} (hg : GoodDicts h) {r : Ref} {n : Node} (hn 
     obtain ⟨⟨dk, c'⟩, hmem, he⟩ := hm
     simp only [Prod.mk.injEq] at he
     obtain ⟨rfl, rfl⟩ := he
-    have hd : (dkeyToPKey dk).toDKey = dk := by cases dk <;> rfl
-    refine ⟨by simp [Node.slotGet, hd, dictGet_of_mem hnd hmem], ?_⟩
+    have hd : (dkeyToPKey dk).toDKey = dk.norm := by cases dk <;> rfl
+    refine ⟨by simp [Node.slotGet, hd, dictGet_norm, dictGet_of_mem hnd hmem], ?_⟩
     cases dk with
     | str s => rfl
     | int i => rfl
+    | idx i => rfl
     | lit id v => exact absurd rfl (hnl _ hmem id v)
   | list rs =>
     obtain ⟨i, hi, rfl⟩ := mem_seqChildren.mp hm
